@@ -1,5 +1,5 @@
 #!/bin/bash
-# setup_cmd: build the framework offline from files on disk only.
+# setup_cmd: build the framework offline from files on disk only, and warm the Go build cache.
 set -eu
 cd "$(dirname "$0")"
 . ./env.sh
@@ -7,4 +7,5 @@ mkdir -p bin work evidence .cache/oracle
 cp /repo/go.sum harness/go.sum
 (cd harness && go build -tags verif -o ../bin/mc ./cmd/mc)
 ./bin/mc list >/dev/null
+./bin/mc warm || true
 echo "setup ok"
